@@ -439,7 +439,7 @@ def drv_sequences(ctx, k, rng):
     seq = []
     kept = []
     for _ in range(L):
-        op = pick(rng, ["simulate", "hedge", "pl", "loss", "price", "fit", "to", "hedge", "pl", "clause", "payoff_and_features", "keep_binding"])
+        op = pick(rng, ["simulate", "hedge", "pl", "loss", "price", "fit", "to", "hedge", "pl", "clause", "payoff_and_features", "keep_binding", "relist"])
         i = int(rng.integers(3))
         d = ders[i]
         j = int(rng.integers(len(hedgers)))
@@ -450,6 +450,12 @@ def drv_sequences(ctx, k, rng):
         elif op == "to":
             ctx.branch("op.to")
             d.to(pick(rng, [F32, F64]))
+        elif op == "relist":
+            # the listed hedge is taken off the market and listed again (same pricer and cost): nothing of the earlier listing may linger
+            if d._listed is not None:
+                d._listed.delist()
+                d._listed.list(P.bs_pricer, cost=1e-3)
+                ctx.branch("seq.delist_relist")
         elif op == "clause":
             d.add_clause("cap%d" % len(list(d.clauses())), lambda dd, p: p.clamp(max=0.05))
         elif op == "keep_binding":
